@@ -76,7 +76,14 @@ class SymWorld:
             scope = {'call': call}
             exec(src, scope)
             f = scope['f']
-        f.__name__ = f.__qualname__ = name
+        # registered under a stable importable name: persistent digests (tarn pickles functions that can be looked
+        # up by module and qualname by reference) then depend on the symbolic name only, not on the harness' state
+        from . import symfns
+        mangled = 'sf_' + ''.join(c if c.isalnum() else f'_{ord(c):x}_' for c in name) + \
+            ('' if params is None else '__' + '_'.join(params))
+        f.__name__ = f.__qualname__ = mangled
+        f.__module__ = symfns.__name__
+        setattr(symfns, mangled, f)
         self.fns[key] = f
         self.names[id(f)] = name
         return f
